@@ -147,6 +147,8 @@ claim("C12",
   "least fixed point (process_rec_sound/complete, rec_exact_order_independent), a suffix-style test is order dependent (rec_sloppy_refuted), and recursion_test_is_exact on the regenerated shape fact (the test compares with \"/\"+class name); "
   "failed attempts of the fix-point leave no trace: failed_attempt_no_trace on the model, registries_are_persistent on the regenerated fact (no in-place insertion into classes_by_name/classes_by_reference/models_to_process), "
   "and the correspondence compares those registries of the real Schemas object before/after every failed update_schemas_with_data/process_model (dependencies may only grow); "
+  "the case-insensitive sort key is injective on the pool of fixed import lines regenerated by gen_imports.py (probing get_imports/get_lazy_imports of every property class, required and optional, through the real parser, plus all "
+  "import-looking literals of the sources): import_pool_keys_distinct, import_probe_complete, pool_imports_sorted_invariant; "
   "dict views of attributes iterated by templates (enum.values.items()) are table sites too: str_enum sorts (dictsort), int_enum does not (known finding int_enum_twin_order). Correspondence: Coq sort models vs the real Jinja filter/sorted() on random lists, and for every generated module the lines "
   "written by each loop site == Order.emit (sorted flag from the regenerated table) of the set in the generating process's own enumeration order. Oracle: byte comparison of whole trees generated in fresh interpreters "
   "across PYTHONHASHSEEDs and across permutations of components.schemas / paths / operations inside a path item (diagnostic-free documents; documents share models as multipart/json/form bodies and responses across operations, "
